@@ -325,14 +325,14 @@ theorem safe_searchLoop (H : RdHyp S U cfg) (mark : Nat) (backup : Text) (backup
     refine wp_refreshPromptAndLine_inv S U cfg H.hnp _ h fun s2 h2 _ => ?_
     refine wp_nextCmd_inv S U cfg H.hnp h2 fun cmd s3 h3 _ => ?_
     rw [wp_lowerMark]
-    have hds : ∀ (mark : Nat) (sb : Text) (hi : Nat) (d : Dir),
+    have hds : ∀ (mark : Nat) (sb : Text) (hi hi0 : Nat) (d : Dir),
         wp (match (memHist cfg).search sb hi d with
             | some (idx, entry, pos) => do
               lb S U (LB.update S U entry pos)
               searchLoop S U cfg mark backup backupPos fuel sb idx d true
-            | none => searchLoop S U cfg mark backup backupPos fuel sb hi d false)
+            | none => searchLoop S U cfg mark backup backupPos fuel sb hi0 d false)
           (fun _ s' => RdInv cfg s') PE s3 := by
-      intro mark sb hi d
+      intro mark sb hi hi0 d
       cases hs : (memHist cfg).search sb hi d with
       | none => exact ih _ _ _ _ _ s3 h3
       | some r =>
@@ -342,13 +342,13 @@ theorem safe_searchLoop (H : RdHyp S U cfg) (mark : Nat) (backup : Text) (backup
         simp only [wp_bind]
         exact wp_lb_update_inv S U cfg hb h3 fun s4 h4 _ _ => ih _ _ _ _ _ s4 h4
     split
-    · exact hds _ _ _ _
+    · exact hds _ _ _ _ _
     · exact ih _ _ _ _ _ s3 h3
     · split
-      · exact hds _ _ _ _
+      · exact hds _ _ _ _ _
       · exact ih _ _ _ _ _ s3 h3
     · split
-      · exact hds _ _ _ _
+      · exact hds _ _ _ _ _
       · exact ih _ _ _ _ _ s3 h3
     · simp only [wp_bind]
       refine wp_lb_update_inv S U cfg hbp h3 fun s4 h4 _ _ => ?_
